@@ -261,6 +261,29 @@ def scripted():
         if router == "gossipsub":
             acts += [A("bsub", t="TB"), A("pubbatch", t="TB", ms=["b1", "x4", "b2", "y3"]), A("bcancel", t="TB")]
         S.append({"cfg": {"router": router, "hosts": 5, "validator": True}, "acts": acts})
+    # every branch of handleGraft / handlePrune (a GRAFT that is refused must not be traced; the reply is a PRUNE RPC only)
+    # G1: tiny degrees so that the mesh fills: GRAFTs from inbound peers at |mesh| >= Dhi are refused, one from an
+    #     outbound peer is still accepted; the refused peers are then in backoff; the heartbeat prunes the excess
+    small = {"D": 2, "Dlo": 1, "Dhi": 3, "Dscore": 1, "Dout": 0}
+    ins = ["p1", "p2", "p3", "p4", "p5"]
+    S.append({"cfg": dict({"router": "gossipsub", "hosts": 8}, **small), "acts":
+              [peer(p, "v11", "in", ("T1",)) for p in ins] + [A("hb"), A("subscribe", t="T1")] +
+              [A("graft", p=p, t="T1") for p in ins] + [peer("p6", "v12", "out", ("T1",)), A("graft", p="p6", t="T1")] +
+              [A("graft", p=p, t="T1") for p in ins] + [A("hb"), A("hb"), A("cancel", t="T1")]})
+    # G2: already in mesh, unknown topic, backoff, direct peer, negative score; PRUNE for an unknown topic, from a member,
+    #     from a non-member
+    S.append({"cfg": {"router": "gossipsub", "score": True, "hosts": 7}, "acts": [
+        peer("p1", "v11", "in", ("T1",)), peer("p2", "v12", "in", ("T1",)), peer("p3", "v11", "in", ("T1",)), A("hb"),
+        A("subscribe", t="T1"), A("graft", p="p1", t="T1"), A("graft", p="p1", t="T9"), A("prune", p="p1", t="T9"),
+        A("prune", p="p2", t="T1", bo=3), A("graft", p="p2", t="T1"), A("prune", p="p2", t="T1"),
+        peer("p4", "v11", "in", ("T1",)), A("direct", p="p4", on=True), A("graft", p="p4", t="T1"),
+        peer("p5", "v12", "in", ("T1",)), A("score", p="p5", v=-1), A("graft", p="p5", t="T1"), A("hb"), A("cancel", t="T1")]})
+    # G3: heartbeat conditionals: negative-score prune, outbound quota graft, opportunistic graft
+    S.append({"cfg": {"router": "gossipsub", "score": True, "hosts": 8}, "acts": [
+        peer("p1", "v11", "in", ("T1",)), peer("p2", "v12", "in", ("T1",)), peer("p3", "v11", "in", ("T1",)), A("hb"),
+        A("subscribe", t="T1"), A("score", p="p1", v=-1), A("hb"), peer("p4", "v12", "out", ("T1",)), A("hb"),
+        peer("p5", "v11", "in", ("T1",)), peer("p6", "v12", "in", ("T1",)), A("score", p="p5", v=3), A("score", p="p6", v=3),
+        A("hb"), A("hb"), A("hb"), A("hb"), A("hb"), A("cancel", t="T1")]})
     for s in S:
         s["src"] = "scripted"
     return S
@@ -275,6 +298,8 @@ def walk(rng, router, steps):
     topics = ["T1", "T2"]
     cfg = {"router": router, "hosts": np_ + 2, "queue": rng.choice([0, 0, 1, 2]), "score": gs and rng.random() < 0.5,
            "flood": gs and rng.random() < 0.25, "files": rng.random() < 0.15, "validator": rng.random() < 0.3}
+    if gs and rng.random() < 0.35:
+        cfg.update({"D": 2, "Dlo": 1, "Dhi": 3, "Dscore": 1, "Dout": 0})   # meshes fill: GRAFTs get refused
     acts, peers, dead, gated = [], [], set(), set()
     for i in range(np_):
         p = "p%d" % (i + 1)
@@ -332,6 +357,10 @@ def walk(rng, router, steps):
         elif r < 83:
             a = {"a": "adv", "ms": rng.choice([100, 400, 700])}
         elif not gs:
+            continue
+        elif r < 85 and "Dhi" in cfg:
+            # every peer GRAFTs the same topic in a row: with tiny degrees the mesh fills and the late ones are refused
+            acts += [{"a": "graft", "p": x, "t": t} for x in peers]
             continue
         elif r < 88:
             a = {"a": "graft", "p": p, "t": t}
@@ -489,22 +518,91 @@ def validate(ctx, groups):
     return viols, states, nlines, index
 
 
+BRANCHES = ["graft:unknown-topic", "graft:already-in-mesh", "graft:direct-peer", "graft:backoff", "graft:negative-score",
+            "graft:mesh-full-inbound", "graft:accepted", "graft:accepted-at-Dhi-outbound",
+            "prune:unknown-topic", "prune:member", "prune:non-member",
+            "hb:graft-below-Dlo", "hb:graft-outbound-quota", "hb:graft-opportunistic", "hb:prune-negative-score", "hb:prune-excess",
+            "join:fresh", "join:from-fanout", "leave:with-mesh", "leave:empty-mesh",
+            "subscribe:not-first-no-JOIN", "cancel:not-last-no-LEAVE", "subscribe:fanout-only-no-JOIN"]
+
+
+def branches(br, cfg, prev, d, act):
+    """Which side of the conditionals next to the trace call sites of gossipsub.go / pubsub.go a validated step line
+    exercised, decided from the stimulus and the snapshot BEFORE the step in the order the code tests them. Only counted
+    (coverage obligations); whether the trace is right on that line is P_C19_Mesh / P_C19_Alternate's business."""
+    def hit(k):
+        br[k] = br.get(k, 0) + 1
+    tev = d.get("tev", [])
+    a, p, t = act["a"], act.get("p", ""), act.get("t", "")
+    mesh = prev.get("mesh", {})
+    got = lambda field: any(e["type"] == "RECV_RPC" and e["p"] == p and t in e["rpc"].get(field, []) for e in tev)
+    if a == "graft" and got("graft"):
+        dhi = cfg.get("Dhi", 5)
+        if t not in mesh:
+            hit("graft:unknown-topic")
+        elif p in mesh[t]:
+            hit("graft:already-in-mesh")
+        elif p in prev.get("direct", []):
+            hit("graft:direct-peer")
+        elif prev.get("backoff", {}).get(t, {}).get(p, 0) > d["t"]:
+            hit("graft:backoff")
+        elif prev.get("scores", {}).get(p, 0) < 0:
+            hit("graft:negative-score")
+        elif len(mesh[t]) >= dhi and not prev.get("outbound", {}).get(p):
+            hit("graft:mesh-full-inbound")
+        else:
+            hit("graft:accepted")
+            if len(mesh[t]) >= dhi:
+                hit("graft:accepted-at-Dhi-outbound")
+    if a == "prune" and got("prune"):
+        hit("prune:unknown-topic" if t not in mesh else "prune:member" if p in mesh[t] else "prune:non-member")
+    if a == "hb":
+        for e in tev:
+            m = mesh.get(e["topic"], [])
+            if e["type"] == "GRAFT" and e["topic"] in mesh:
+                if len(m) < cfg.get("Dlo", 2):
+                    hit("hb:graft-below-Dlo")
+                elif prev.get("outbound", {}).get(e["p"]) and not any(prev.get("outbound", {}).get(x) for x in m):
+                    hit("hb:graft-outbound-quota")
+                else:
+                    hit("hb:graft-opportunistic")
+            if e["type"] == "PRUNE" and e["p"] in m:
+                hit("hb:prune-negative-score" if prev.get("scores", {}).get(e["p"], 0) < 0 else "hb:prune-excess")
+    joined = lambda st: {x for x in set(st.get("subs", {})) | set(st.get("relays", {}))}
+    for e in tev:
+        if e["type"] == "JOIN":
+            hit("join:from-fanout" if prev.get("fanout", {}).get(e["topic"]) else "join:fresh")
+        if e["type"] == "LEAVE":
+            hit("leave:with-mesh" if mesh.get(e["topic"]) else "leave:empty-mesh")
+    if a in ("subscribe", "relay", "bsub") and not any(e["type"] == "JOIN" for e in tev):
+        fo = d["st"].get("myTopics", {}).get(t, {}).get("fanoutOnly")
+        if fo:
+            hit("subscribe:fanout-only-no-JOIN")
+        elif t in joined(prev):
+            hit("subscribe:not-first-no-JOIN")
+    if a in ("cancel", "unrelay", "bcancel") and not any(e["type"] == "LEAVE" for e in tev) and t in joined(d["st"]) and t in mesh:
+        hit("cancel:not-last-no-LEAVE")
+
+
 def coverage(groups):
     """Coverage obligations measured on the validated real lines."""
     cov = {"types": {}, "routers": {}, "mesh_peer_disconnect": 0, "drop_refused_push": 0, "drop_without_push": 0,
            "leave_with_mesh": 0, "rejoin_cycles": {}, "batch_publish": 0, "files_lines": 0, "hb_graft": 0, "hb_prune": 0,
            "remote_graft": 0, "remote_prune": 0, "announce_retry_send": 0, "unresolved_publication": 0, "lines_with_push": 0,
-           "rejected_local_publication": 0, "local_only_publication": 0}
+           "rejected_local_publication": 0, "local_only_publication": 0, "branches": {}}
     for name, raw, _ in groups:
         for sc in raw:
             router = sc[0]["act"]["cfg"]["router"]
             cov["routers"][router] = cov["routers"].get(router, 0) + 1
-            prev_mesh, joins = {}, {}
+            prev_mesh, joins, prev = {}, {}, sc[0]["st"]
             for d in sc:
                 act = d["act"].get("c19", d["act"])
                 if act["a"] == "files":
                     cov["files_lines"] += 1
                     continue
+                if router == "gossipsub" and act["a"] != "reset":
+                    branches(cov["branches"], sc[0]["act"]["cfg"], prev, d, act)
+                prev = d["st"]
                 tev = d.get("tev", [])
                 for e in tev:
                     cov["types"][e["type"]] = cov["types"].get(e["type"], 0) + 1
@@ -663,6 +761,7 @@ def run(ctx):
               "rejected_local_publication", "local_only_publication"):
         if not cov[k]:
             missing.append(k)
+    missing += [b for b in BRANCHES if not cov["branches"].get(b)]
     if missing and not ctx.violations:
         raise vlib.Inconclusive("coverage obligation not met: never observed on the real node: %s" % missing)
 
